@@ -64,6 +64,13 @@ theorem sort_unique {β : Type} (l out : List (List Nat × β)) (nd : (l.map (·
   exact eq_of_key_eq nd ((isort_perm keyLe l).mem_iff.1 ha) ((isort_perm keyLe l).mem_iff.1 hb)
     (lexLe_antisymm h1 h2)
 
+/-- non-vacuity of `sort_unique`'s hypotheses: a sorted arrangement of a two-entry map. -/
+example :
+    let l : List (List Nat × Nat) := [(nFiles, 1024), (nCpu, 0)]
+    let out : List (List Nat × Nat) := [(nCpu, 0), (nFiles, 1024)]
+    (l.map (·.1)).Nodup ∧ out.Pairwise (fun a b => keyLe a b = true) ∧ out = isort keyLe l := by
+  decide
+
 /-! ## 1. "byte-identical JSON … across repeated runs": the `/proc/limits` section -/
 
 /-- **C13.1** `limits_render_perm`: the `"limits"` array is the same for every iteration order of
@@ -361,6 +368,15 @@ theorem stats_last_writer (mods : Nat → Mod) (pre post : List Nat) (k : Nat)
     simpa using hpost j hj
   rw [this]
   simp
+
+/-- non-vacuity of `stats_last_writer`: three completed lookups, the middle one is the last with
+    leaf `x.dll`. -/
+example :
+    let mods : Nat → Mod := fun k =>
+      if k = 0 then ⟨nXdll, .ok⟩ else if k = 1 then ⟨nXdll, .notFound⟩ else ⟨nYdll, .parseError⟩
+    (∀ j, j ∈ [2] → (mods j).leaf ≠ (mods 1).leaf) ∧
+    lookup (statsAfter mods ([0] ++ 1 :: [2])) nXdll = some .notFound := by
+  decide
 
 /-- **C13.5** `stats_order_free`: if modules (among those whose symbols were requested) that share a
     file leaf name have the same symbol outcome — in particular if distinct module keys have
